@@ -624,6 +624,21 @@ impl WsConn {
         }
     }
 
+    /// like `recv_text`, but a timeout (Ok(None)) is told apart from a closed or failed connection (Err)
+    pub fn recv_text_or_closed(&mut self, ms: u64) -> Result<Option<String>, ()> {
+        self.ws.get_ref().set_read_timeout(Some(Duration::from_millis(ms.max(1)))).ok();
+        loop {
+            match self.ws.read() {
+                Ok(tungstenite::Message::Text(t)) => return Ok(Some(t.as_str().to_string())),
+                Ok(tungstenite::Message::Binary(b)) => return Ok(Some(String::from_utf8_lossy(&b).to_string())),
+                Ok(tungstenite::Message::Close(_)) => return Err(()),
+                Ok(_) => continue,
+                Err(tungstenite::Error::Io(e)) if e.kind() == std::io::ErrorKind::WouldBlock || e.kind() == std::io::ErrorKind::TimedOut => return Ok(None),
+                Err(_) => return Err(()),
+            }
+        }
+    }
+
     /// true if the peer closed / reset the connection within `ms`
     pub fn closed_within(&mut self, ms: u64) -> bool {
         self.ws.get_ref().set_read_timeout(Some(Duration::from_millis(ms.max(1)))).ok();
